@@ -65,6 +65,18 @@ type Sched struct {
 	// ClockFree makes clock steps free (no deviation charged) — never used by checks, kept
 	// for experiments.
 	TimedOut bool
+	stolen   time.Duration // fake time that passed in clock steps chosen while a thread was enabled
+}
+
+// Stolen returns the fake time that elapsed in clock deviations (the clock advanced
+// although some thread could run): a latency oracle must not charge it to the library.
+//
+//go:norace
+func Stolen() time.Duration {
+	if S == nil {
+		return 0
+	}
+	return S.stolen
 }
 
 type traceEnt struct {
@@ -581,7 +593,7 @@ func (s *Sched) Leaked() []string {
 	var out []string
 	for _, t := range s.thr {
 		if t.state != stDone {
-			out = append(out, fmt.Sprintf("t%d(%s)@%s", t.ID, t.Name, t.site))
+			out = append(out, fmt.Sprintf("t%d(%s)@%s", t.ID, t.Name, strings.TrimPrefix(t.site, "after:")))
 		}
 	}
 	return out
@@ -591,6 +603,22 @@ func (s *Sched) Leaked() []string {
 //
 //go:norace
 func (s *Sched) Elapsed() time.Duration { return time.Since(s.start) }
+
+// Live lists the names of controlled threads that have not finished.
+//
+//go:norace
+func Live() []string {
+	if S == nil {
+		return nil
+	}
+	var out []string
+	for _, t := range S.thr {
+		if t.state != stDone {
+			out = append(out, t.Name)
+		}
+	}
+	return out
+}
 
 // CurID returns the id of the running thread (-1 outside the scheduler).
 //
@@ -700,6 +728,7 @@ func (s *Sched) Run() {
 		}
 		if en[k] == -1 {
 			time.Sleep(nt.Sub(now) + time.Microsecond)
+			s.stolen += nt.Sub(now) + time.Microsecond
 			s.trace = append(s.trace, traceEnt{-2, nt.Sub(s.start).String()})
 			s.epoch = mix(s.epoch, uint64(nt.Sub(s.start)))
 			continue
